@@ -10,6 +10,7 @@ import (
 	"syscall"
 
 	"verifharness/internal/core"
+	"verifharness/internal/ref/par2rw"
 	"verifharness/internal/scen"
 )
 
@@ -461,6 +462,33 @@ func (c *c20) Run(cs core.Case) core.Result {
 				if p.Fmt == "par1" && strings.HasPrefix(n, "fresh.p") && n != "fresh.par" {
 					vols++
 				}
+			}
+			if p.Fmt == "par2" {
+				// -c N means N recovery blocks, stored exactly once
+				var nReq int
+				for i, a := range cflags {
+					if a == "-c" && i+1 < len(cflags) {
+						fmt.Sscan(cflags[i+1], &nReq)
+					}
+				}
+				seen := map[uint32]int{}
+				for _, e := range ents {
+					if strings.HasPrefix(e.Name(), "fresh.") && strings.HasSuffix(e.Name(), ".par2") {
+						if b, err := os.ReadFile(filepath.Join(setDir, e.Name())); err == nil {
+							for _, pk := range par2rw.ParseLenient(b) {
+								if pk.Type == par2rw.TypeRecv {
+									if rv, err := par2rw.DecodeRecv(pk.Body); err == nil {
+										seen[rv.Exp]++
+									}
+								}
+							}
+						}
+					}
+				}
+				if nReq > 0 && len(seen) != nReq {
+					r.Violate("exit-0-contradicted-by-disk|create", "create -c %d exited 0 but the recovery files hold %d distinct blocks", nReq, len(seen))
+				}
+				r.Count("created_block_counts_checked", 1)
 			}
 			if vols == 0 {
 				r.Violate("exit-0-contradicted-by-disk|create", "create exited 0 but no recovery volume of the %s format was written", p.Fmt)
